@@ -201,6 +201,7 @@ type Options struct {
 	R         *Recorder
 	Delay     func(op string)
 	Fail      func(op string, n int, msg []byte) error
+	SQLDriver string                    // database/sql driver name for StoreKind "sql" (default sqlite3)
 	ToAdmin   func(m *quickfix.Message) // runs inside the engine's ToAdmin callback (user code: may take time)
 }
 
@@ -228,7 +229,11 @@ func settingsText(o Options, initiator bool) string {
 	case "file":
 		b.WriteString("FileStorePath=" + o.StoreDir + "/fs-" + o.Who + "\n")
 	case "sql":
-		b.WriteString("SQLStoreDriver=sqlite3\nSQLStoreDataSourceName=" + o.StoreDir + "/db.sqlite\n")
+		drv := o.SQLDriver
+		if drv == "" {
+			drv = "sqlite3"
+		}
+		b.WriteString("SQLStoreDriver=" + drv + "\nSQLStoreDataSourceName=" + o.StoreDir + "/db.sqlite\n")
 	}
 	for k, v := range o.Extra {
 		b.WriteString(k + "=" + v + "\n")
